@@ -14,11 +14,11 @@ EXTENDS HappyLock, Families, Json
 CONSTANTS Family,     \* "conc" | "seq"
           PartK, PartN, \* this TLC process explores scenarios i with i % PartN = PartK
           \* ---- family "conc": NT threads, one call each
-          Kinds,      \* subset of {"single","owned","boxed","ref","retry"}
+          Kinds,      \* collection kinds of thread 1's call      \* subset of {"single","owned","boxed","ref","retry"}
           ApisA,      \* api set of thread 1
-          ApisB,      \* api set of the other threads
-          UnivA, UnivB, \* top-level slots the call of thread 1 / the others may list
-          MaxLenA, MaxLenB,
+          UnivA,      \* top-level slots the call of thread 1 may list
+          MinLenA, MaxLenA,
+          CallsB,     \* calls of the other threads: set of <<kind, slots, api>>
           Policies,   \* subset of {"RP","WP"}
           NT,         \* number of threads (2 or 3)
           Keys,       \* key styles for scoped calls, subset of {"lent","owned"}
@@ -30,28 +30,35 @@ CONSTANTS Family,     \* "conc" | "seq"
           SeqTopOps,  \* set of <<name, coll>> : top-level non-acquiring operations
           SeqDbgColls,\* collections formatted with {:?} by "dbg" bodies
           SeqMaxLen,
-          SeqHolders  \* set of <<api, coll>> the second thread holds (<<"none", 0>> : no holder)
+          SeqHolders, \* set of <<api, coll>> the second thread holds (<<"none", 0>> : no holder)
+          \* ---- family "fault": one call under a one-shot raw-lock fault at each operation index, then probes
+          FltColls, FltApis, FltKeys, FltRels, FltHolders, FltMaxAt,
+          FltTryProbes,  \* collections probed with try_lock after the faulted call
+          FltLockProbes  \* collections probed with a blocking lock after that
 
 Arena == <<Leaf("R"), Leaf("R"), Leaf("M"), Unit(<<6, 5>>), Leaf("R"), Leaf("R")>>
 
 SlotLists(kind, U, maxlen) ==
   IF kind = "single" THEN {<<s>> : s \in {x \in U : Arena[x].k # "O"}}
   ELSE IF kind = "owned" THEN {<<s>> : s \in {x \in U : Arena[x].k = "O"}}
-  ELSE Arrangements(U, 1, maxlen)
+  ELSE Arrangements(U, 0, maxlen)
 
-CallSpecs(apis, U, maxlen) ==
-  {cs \in [kind : Kinds, slots : UNION {SlotLists(k, U, maxlen) : k \in Kinds}, api : apis, key : Keys] :
-     /\ cs.slots \in SlotLists(cs.kind, U, maxlen)
+CallSpecsA ==
+  {cs \in [kind : Kinds, slots : UNION {SlotLists(k, UnivA, MaxLenA) : k \in Kinds}, api : ApisA, key : Keys] :
+     /\ cs.slots \in SlotLists(cs.kind, UnivA, MaxLenA)
+     /\ cs.kind \in {"single", "owned"} \/ Len(cs.slots) >= MinLenA
      /\ ApiMode(cs.api) = "r" => AllRw(Arena, cs.slots)
      /\ ~ApiScoped(cs.api) => cs.key = "owned"}
+CallSpecsB == {[kind |-> b[1], slots |-> b[2], api |-> b[3], key |-> "owned"] : b \in CallsB}
 
 FirstPath(sc, c) == LET P == PathsC(sc, c) IN CHOOSE p \in P : \A q \in P : Len(p) <= Len(q)
 
 \* the body of a call: b \in {"none","acc","panic","dbg"}; dbg formats collection dc inside the critical section
 MkBody(sc, c, api, b, dc) ==
   CASE b = "none"  -> <<>>
-    [] b = "acc"   -> <<Acc(FirstPath(sc, c), ApiMode(api))>>
-    [] b = "panic" -> <<Acc(FirstPath(sc, c), ApiMode(api)), [o |-> "panic", pos |-> <<>>, m |-> "", name |-> "", c |-> 0]>>
+    [] b = "acc"   -> IF PathsC(sc, c) = {} THEN <<>> ELSE <<Acc(FirstPath(sc, c), ApiMode(api))>>
+    [] b = "panic" -> (IF PathsC(sc, c) = {} THEN <<>> ELSE <<Acc(FirstPath(sc, c), ApiMode(api))>>)
+                      \o <<[o |-> "panic", pos |-> <<>>, m |-> "", name |-> "", c |-> 0]>>
     [] b = "dbg"   -> <<[o |-> "op", pos |-> <<>>, m |-> "", name |-> "debug", c |-> dc]>>
 
 MkScen(css, pol, b1) ==
@@ -61,9 +68,8 @@ MkScen(css, pol, b1) ==
         <<Call(css[i].api, i, css[i].key, IF ApiScoped(css[i].api) THEN "scope" ELSE "drop",
                MkBody(sc0, i, css[i].api, IF i = 1 THEN b1 ELSE "acc", i))>>]]
 
-Combos == IF NT = 2 THEN {<<a, b>> : a \in CallSpecs(ApisA, UnivA, MaxLenA), b \in CallSpecs(ApisB, UnivB, MaxLenB)}
-          ELSE {<<a, b, c>> : a \in CallSpecs(ApisA, UnivA, MaxLenA),
-                              b \in CallSpecs(ApisB, UnivB, MaxLenB), c \in CallSpecs(ApisB, UnivB, MaxLenB)}
+Combos == IF NT = 2 THEN {<<a, b>> : a \in CallSpecsA, b \in CallSpecsB}
+          ELSE {<<a, b, c>> : a \in CallSpecsA, b \in CallSpecsB, c \in CallSpecsB}
 
 ConcScens == {MkScen(cb, pol, b) : cb \in Combos, pol \in Policies, b \in ConcBodies}
 
@@ -89,7 +95,14 @@ SeqCollTab == <<
   MkColl("boxed", "try_new", <<3, 2>>),                                \* 13  boxed over a Mutex and an RwLock
   [kind |-> "boxed", ctor |-> "try_new", items |-> <<CollItem(4), [s |-> 2, c |-> 0]>>],  \* 14 boxed[retry[1,unit], 2]
   [kind |-> "ref", ctor |-> "try_new", items |-> <<CollItem(8), [s |-> 2, c |-> 0]>>],    \* 15 ref[pois(1), 2]
-  [kind |-> "pois", ctor |-> "new", items |-> <<CollItem(9)>>]                            \* 16 Poisonable<boxed[pois(1), 2]>
+  [kind |-> "pois", ctor |-> "new", items |-> <<CollItem(9)>>],                           \* 16 Poisonable<boxed[pois(1), 2]>
+  MkColl("single", "new", <<2>>),                                      \* 17  RwLock (slot 2)
+  MkColl("boxed", "try_new", <<2, 1, 3>>),                             \* 18  boxed of three
+  MkColl("retry", "try_new", <<3, 1, 2>>),                             \* 19  retry of three
+  MkColl("retry", "try_new", <<2, 1>>),                                \* 20  retry of two RwLocks
+  MkColl("boxed", "try_new", <<4, 1>>),                                \* 21  boxed over an owned unit and a leaf
+  MkColl("ref", "try_new", <<3, 2, 1>>),                               \* 22  ref of three
+  MkColl("retry", "try_new", <<4, 2, 1>>)                              \* 23  retry[unit, 2, 1]
 >>
 SeqSc0 == [arena |-> Arena, colls |-> SeqCollTab, progs |-> <<>>, policy |-> "RP", faults |-> NoFaults]
 SeqAllRw(c) == \A l \in SeqRange(Decl(SeqSc0, c)) : Arena[l].k = "R"
@@ -112,8 +125,25 @@ HolderProg(h) == IF h[1] = "none" THEN <<>>
 SeqScens == {[SeqSc0 EXCEPT !.progs = <<mp, HolderProg(h)>>, !.policy = pol] :
                mp \in SeqMains, h \in SeqHolders, pol \in Policies}
 
-RawScens == SetToSeq(CASE Family = "conc" -> ConcScens
-                       [] Family = "seq"  -> SeqScens)
+(***************************************************************************)
+(* Family "fault": TLC enumerates the fault positions (the index of the     *)
+(* raw operation that panics is part of the initial state).                 *)
+(***************************************************************************)
+FltCalls ==
+  {Call(cs.api, cs.c, cs.key, IF ApiScoped(cs.api) THEN "scope" ELSE cs.rel, MkBody(SeqSc0, cs.c, cs.api, "acc", 0)) :
+     cs \in {x \in [api : FltApis, c : FltColls, key : FltKeys, rel : FltRels] :
+               /\ ApiMode(x.api) = "r" => SeqAllRw(x.c)
+               /\ ~ApiScoped(x.api) => x.key = "owned"
+               /\ ApiScoped(x.api) => x.rel = CHOOSE r \in FltRels : TRUE}}
+ProbeSeq(S, api) == LET q == SetToSeq(S) IN [i \in 1..Len(q) |-> Call(api, q[i], "owned", "drop", <<>>)]
+FltScens == {[SeqSc0 EXCEPT !.progs = <<<<ca>> \o ProbeSeq(FltTryProbes, "try_lock") \o ProbeSeq(FltLockProbes, "lock"),
+                                        HolderProg(h)>>,
+                            !.faults = [k |-> "oneshot", at |-> n]] :
+               ca \in FltCalls, h \in FltHolders, n \in 1..FltMaxAt}
+
+RawScens == SetToSeq(CASE Family = "conc"  -> ConcScens
+                       [] Family = "seq"   -> SeqScens
+                       [] Family = "fault" -> FltScens)
 
 \* (one line per scenario is printed for the replay generator)
 Mine(i) == i % PartN = PartK
